@@ -12,8 +12,9 @@ from ref import match as M
 
 KNOWN_METHODS = set(['GET', 'HEAD', 'POST', 'PUT', 'DELETE', 'OPTIONS', 'TRACE', 'CONNECT', 'PATCH'])
 
-BEHAVIOUR_STATUS = {'answer': 200, 'break4': 409, 'break5': 503, 'nb404r': 404, 'nb403t': 403, 'boom': 500}
-NONBREAKING = ('nb404r', 'nb403t')
+BEHAVIOUR_STATUS = {'answer': 200, 'break4': 409, 'break5': 503, 'nb404r': 404, 'nb403t': 403, 'boom': 500,
+                    'nbshared': 404, 'nbshared2': 403}     # prepared error objects, raised again by every route that uses them
+NONBREAKING = ('nb404r', 'nb403t', 'nbshared', 'nbshared2')
 
 
 def method_set(methods):
